@@ -45,7 +45,8 @@ def colSum : List (Seg × Fields) → Int
 
 def tpairs (l : List TEnt) : List (Seg × Fields) := l.map fun e => (e.seg, e.f)
 
-/-- `resultWindings` of the nearest traced, closed, non-vertical entry of a chain -/
+/-- `resultWindings` of the nearest traced, closed, non-vertical entry of a chain
+(the walk of path_intersection.go skips `prev.vertical || prev.open || !prev.traced`, 149c65a) -/
 def nearestRW : List TEnt → Option Int
   | [] => none
   | e :: rest => if e.traced && !e.seg.vertical && !e.seg.open_ then some e.rw else nearestRW rest
